@@ -1,24 +1,31 @@
 import BctVerif.Lemmas.ClusterReduce
 import BctVerif.Lemmas.ClusterCbrt
+import BctVerif.Lemmas.ClusterReal
+import BctVerif.Props.C03
+import BctVerif.Props.C08
+import BctVerif.Props.C15
 /-!
 # C10 — weighted measures reduce to binary on 0/1 input, directed to undirected on symmetric input
 
-Theorems for the clustering / transitivity / degree–strength clauses, about the executable
-definitions of `BctVerif/Model/Cluster.lean`.  (The distance / betweenness / efficiency /
-assortativity / k-core clauses of C10 are checked on the real code by `harness/props/c10.py`;
-their models belong to the C03/C08/C15 slices.)
+* clustering / transitivity / degree–strength: theorems about `BctVerif/Model/Cluster.lean` (ℚ) and, for the
+  symmetric-weighted clause, about the real routines of `Lemmas/ClusterReal.lean` (all real weights);
+* distance, betweenness, edge betweenness, global efficiency, and the weight-ignoring `distance_bin`, `efficiency_bin`,
+  `reachdist`, `kcore_bd/bu`: corollaries of the correctness theorems of the C03 / C08 / C15 slices, about *their*
+  executable models (`Bct.Dist`, `Bct.Between`, `Bct.Core`);
+* **no theorem** (Python predicate on the real code only): local efficiency, `assortativity_wei/bin`, and the
+  weight-ignoring `density_*`, `breadthdist`, `kcoreness_centrality_*`, `edge_nei_overlap_*`, `findwalks`,
+  `get_components`, `assortativity_bin`, `efficiency_bin(local)`.
 
-`Bin W`: all entries 0 or 1; `Symm W`: symmetric; `EmptyDiag W`: empty diagonal;
-`IsCbrt R W`: `R` is the entrywise cube root of `W`.  On a 0/1 matrix the cube root is the matrix
-itself (`cbrt_on01`, and the executable `rootMat` returns it: `rootMat_on01`).
+`Bin W`: all entries 0 or 1; `Symm W`: symmetric; `EmptyDiag W`: empty diagonal.
 -/
 namespace Bct.C10
 open Finset Bct Bct.Cluster
 
 variable {n : ℕ}
 
-/-! ## weighted = binary on 0/1 input -/
+/-! ## weighted = binary on 0/1 input: clustering, transitivity, strengths -/
 
+/-- on a 0/1 matrix the cube root is the matrix itself, and the executable `rootMat` returns it -/
 theorem cbrt_on01 {W : AMat ℚ n} (hB : Bin W) : IsCbrt W W := isCbrt_of_bin hB
 theorem rootMat_on01 {W : AMat ℚ n} (hB : Bin W) : rootMat W = some W := Cluster.rootMat_on01 hB
 
@@ -48,27 +55,66 @@ theorem strength_eq_degree_on01 {W : AMat ℚ n} (hB : Bin W) :
     strengthsUnd W = degreesUnd W ∧ strengthsDir W = degreesTot W :=
   ⟨strengthsUnd_eq_degreesUnd_on01 hB, strengthsDir_eq_degreesTot_on01 hB⟩
 
+/-! ## weighted = binary on 0/1 input: distance, efficiency, betweenness (models of C03 / C08) -/
+
+/-- `distance_wei(A)[0] = distance_bin(A)` on every 0/1 matrix: both models return, and return the same matrix -/
+theorem dist_wei_eq_bin_on01 (A : AMat Rat n) (hbin : ∀ i j, A.get i j = 0 ∨ A.get i j = 1) :
+    ∃ D B, Dist.distBin A = some D ∧ Dist.dijkstra (Dist.lenMat .none A) = some (D, B) := by
+  obtain ⟨D, hD⟩ := C03.distBin_total A
+  obtain ⟨D', B, h⟩ := C03.dijkstra_total (Dist.lenMat .none A)
+  have hA : C03.NonNeg A := by
+    intro i j; rcases hbin i j with e | e <;> rw [e] <;> norm_num
+  have e1 := C03.distBin_eq_floyd A hbin D hD
+  have e2 := C03.floyd_eq_dijkstra A hA D' B h
+  exact ⟨D, B, hD, by rw [h, e2, ← e1]⟩
+
+theorem lenMat_inv_on01 (A : AMat Rat n) (hbin : ∀ i j, A.get i j = 0 ∨ A.get i j = 1) :
+    Dist.lenMat .inv A = Dist.lenMat .none A :=
+  AMat.ext_get fun i j => by
+    simp only [Dist.lenMat, AMat.get_ofFn, Dist.lenOf]
+    rcases hbin i j with h | h <;> simp [h]
+
+/-- global `efficiency_wei(A) = efficiency_bin(A)` on every 0/1 matrix (equality of the model outputs) -/
+theorem eff_wei_eq_bin_on01 (A : AMat Rat n) (hbin : ∀ i j, A.get i j = 0 ∨ A.get i j = 1) :
+    Dist.efficiencyWei A = Dist.efficiencyBin A := by
+  obtain ⟨D, B, h1, h2⟩ := dist_wei_eq_bin_on01 A hbin
+  unfold Dist.efficiencyWei Dist.efficiencyBin
+  rw [lenMat_inv_on01 A hbin, h1, h2]; rfl
+
+/-- `edge_betweenness_wei(L) = edge_betweenness_bin(L)` (both outputs) on every 0/1 matrix -/
+theorem ebetw_wei_eq_bin_on01 (L : AMat Nat n) (hbin : ∀ i j, L.get i j ≤ 1) :
+    Between.brandes true L = Between.brandes false L := by
+  rw [C08.brandes_wei_correct, C08.edge_betweenness_bin_correct L hbin]
+
+/-- `betweenness_wei(L) = betweenness_bin(L)` on every 0/1 matrix with empty diagonal -/
+theorem betw_wei_eq_bin_on01 (L : AMat Nat n) (hbin : ∀ i j, L.get i j ≤ 1) (hdiag : ∀ i, L.get i i = 0) :
+    (Between.brandes true L).map Prod.snd = Between.betweennessBin L := by
+  rw [C08.betweenness_wei_correct, C08.betweennessBin_correct L hbin hdiag]
+
 /-! ## directed = undirected on symmetric input -/
 
 /-- `clustering_coef_bd(A) = clustering_coef_bu(A)` on symmetric 0/1 input -/
 theorem bd_eq_bu_symm {A : AMat ℚ n} (hB : Bin A) (hS : Symm A) (hD : EmptyDiag A) : ccBd A = ccBu A :=
   Cluster.bd_eq_bu_symm hB hS hD
 
-/-- `clustering_coef_wd(W) = clustering_coef_wu(W)` on every symmetric weighted matrix (any weights) -/
-theorem wd_eq_wu_symm {W R : AMat ℚ n} (hS : Symm W) (hR : IsCbrt R W) : ccWd W R = ccWu W R :=
-  Cluster.wd_eq_wu_symm hS (isCbrt_symm hR hS)
+/-- model: `clustering_coef_wd = clustering_coef_wu` for every symmetric `W` and every symmetric matrix `R` in the place
+of `cuberoot(W)` — no cube-root hypothesis -/
+theorem wd_eq_wu_symm {W R : AMat ℚ n} (hS : Symm W) (hRS : Symm R) : ccWd W R = ccWu W R :=
+  Cluster.wd_eq_wu_symm hS hRS
 
-theorem wd_eq_wu_symm_exec {W : AMat ℚ n} (hS : Symm W) :
-    (rootMat W).map (ccWd W) = (rootMat W).map (ccWu W) := by
-  cases h : rootMat W with
-  | none => rfl
-  | some R => simp only [Option.map_some]; rw [wd_eq_wu_symm hS (Cluster.rootMat_sound h)]
+/-- **all real weights**: on every symmetric real matrix (any signed weights, any diagonal)
+`clustering_coef_wd(W) = clustering_coef_wu(W)`, with the real cube root -/
+theorem wd_eq_wu_symm_real {W : AMat ℝ n} (hS : Symm W) (i : Fin n) : ccWdR W i = ccWuR W i :=
+  ccFagK_symm hS (isCbrt_symm (rootR_isCbrt W) hS) i
 
 theorem trans_bd_eq_bu_symm {A : AMat ℚ n} (hB : Bin A) (hS : Symm A) : transBd A = transBu A :=
   Cluster.trans_bd_eq_bu_symm hB hS
 
-theorem trans_wd_eq_wu_symm {W R : AMat ℚ n} (hS : Symm W) (hR : IsCbrt R W) : transWd W R = transWu W R :=
-  Cluster.trans_wd_eq_wu_symm hS (isCbrt_symm hR hS)
+theorem trans_wd_eq_wu_symm {W R : AMat ℚ n} (hS : Symm W) (hRS : Symm R) : transWd W R = transWu W R :=
+  Cluster.trans_wd_eq_wu_symm hS hRS
+
+theorem trans_wd_eq_wu_symm_real {W : AMat ℝ n} (hS : Symm W) : transWdR W = transWuR W :=
+  transFagK_symm hS (isCbrt_symm (rootR_isCbrt W) hS)
 
 /-- in-degree = out-degree = undirected degree on symmetric input (`degrees_dir` vs `degrees_und`),
 and the total degree is twice that -/
@@ -77,7 +123,7 @@ theorem degrees_dir_eq_und_symm {W : AMat ℚ n} (hS : Symm W) :
     ∀ i : Fin n, (degreesTot W)[i] = 2 * (degreesUnd W)[i] := by
   refine ⟨degreesIn_eq_und W, degreesOut_eq_und_symm hS, fun i => ?_⟩
   simp only [degreesTot, degreesUnd, get_ofFn_vec]
-  rw [rowSum_eq_colSum_symm (adj_symm hS)]; ring
+  rw [adj_eq, rowSum_eq_colSum_symm (adj_symm hS)]; ring
 
 /-! ## weight-ignoring routines: same on `W` and `binarize(W)` -/
 
@@ -85,9 +131,46 @@ theorem degrees_ignore_weights (W : AMat ℚ n) :
     degreesUnd (adj W) = degreesUnd W ∧ degreesIn (adj W) = degreesIn W ∧
     degreesOut (adj W) = degreesOut W ∧ degreesTot (adj W) = degreesTot W := by
   refine ⟨degreesUnd_binarize W, ?_, ?_, ?_⟩
-  · rw [degreesIn, adj_adj]; rfl
-  · rw [degreesOut, adj_adj]; rfl
-  · rw [degreesTot, adj_adj]; rfl
+  · rw [degreesIn, adj_adj_q]; rfl
+  · rw [degreesOut, adj_adj_q]; rfl
+  · rw [degreesTot, adj_adj_q]; rfl
+
+theorem binarize_adj (W : AMat Rat n) : Dist.binarize (adj W) = Dist.binarize W :=
+  AMat.ext_get fun i j => by
+    simp only [Dist.binarize, AMat.get_ofFn, adj, ind, map_get]
+    by_cases h : W.get i j = 0 <;> simp [h]
+
+/-- `distance_bin`, global `efficiency_bin` and `reachdist` (models of C03) ignore the weights -/
+theorem weights_ignored_dist (W : AMat Rat n) :
+    Dist.distBin (adj W) = Dist.distBin W ∧ Dist.efficiencyBin (adj W) = Dist.efficiencyBin W ∧
+    Dist.reachdist (adj W) = Dist.reachdist W := by
+  refine ⟨?_, ?_, ?_⟩
+  · unfold Dist.distBin; rw [binarize_adj]
+  · unfold Dist.efficiencyBin Dist.distBin; rw [binarize_adj]
+  · unfold Dist.reachdist; rw [binarize_adj]
+
+/-- `binarize` on the integer matrices of the k-core model -/
+def binI (A : AMat Int n) : AMat Int n := AMat.map (fun x => if x = 0 then 0 else 1) A
+
+/-- `kcore_bd` / `kcore_bu` (models of C15): the k-core node set and its size `kn` are the same for `W` and
+`binarize(W)` (the returned matrices are the respective inputs restricted to that set: `C15.kcore_bd_correct`) -/
+theorem weights_ignored_kcore (A : AMat Int n) (k : ℕ) :
+    C15.coreOfBd (binI A) k = C15.coreOfBd A k ∧
+    ((∀ i j, A.get i j = A.get j i) → C15.coreOfBu (binI A) k = C15.coreOfBu A k) := by
+  have hb : ∀ i j, (binI A).get i j ≠ 0 ↔ A.get i j ≠ 0 := by
+    intro i j; simp only [binI, map_get]; by_cases h : A.get i j = 0 <;> simp [h]
+  constructor
+  · rw [C15.coreOfBd_eq, C15.coreOfBd_eq]
+    congr 1; funext w v; simp only [Core.wtBd, hb]
+  · intro hsym
+    have hsym' : ∀ i j, (binI A).get i j = (binI A).get j i := by
+      intro i j; simp only [binI, map_get, hsym i j]
+    rw [C15.coreOfBu_eq _ hsym', C15.coreOfBu_eq _ hsym]
+    congr 1; funext w v; simp only [Core.wtBu, hb]
+
+theorem weights_ignored_kcore_kn (A : AMat Int n) (k : ℕ) (hk : 1 ≤ k) :
+    (Core.kcoreBd (binI A) k).kn = (Core.kcoreBd A k).kn := by
+  rw [(C15.kcore_bd_correct (binI A) k hk).2.2, (C15.kcore_bd_correct A k hk).2.2, (weights_ignored_kcore A k).1]
 
 /-! ## non-vacuity -/
 section Examples
@@ -96,12 +179,19 @@ def K3 : AMat ℚ 3 := AMat.ofFn fun i j => if i = j then 0 else 1
 def C3 : AMat ℚ 3 := AMat.ofFn fun i j => if j.val = (i.val + 1) % 3 then 1 else 0
 def W3 : AMat ℚ 3 := AMat.ofFn fun i j => if i = j then 0 else 1/8
 def R3 : AMat ℚ 3 := AMat.ofFn fun i j => if i = j then 0 else 1/2
+/-- a symmetric real matrix with the non-cube weights 1/2 and −3/10 -/
+noncomputable def H3 : AMat ℝ 3 := AMat.ofFn fun i j => if i = j then 0 else if i.val + j.val = 1 then -3/10 else 1/2
+def L3 : AMat Nat 3 := AMat.ofFn fun i j => if j.val = (i.val + 1) % 3 then 1 else 0
+def I3 : AMat Int 3 := AMat.ofFn fun i j => if i = j then 0 else 5
 lemma K3_bin : Bin K3 := fun i j => by simp only [K3, AMat.get_ofFn]; split_ifs <;> simp
 lemma K3_symm : Symm K3 := fun i j => by simp only [K3, AMat.get_ofFn, eq_comm]
 lemma K3_diag : EmptyDiag K3 := fun i => by simp [K3]
 lemma C3_bin : Bin C3 := fun i j => by simp only [C3, AMat.get_ofFn]; split_ifs <;> simp
 lemma W3_symm : Symm W3 := fun i j => by simp only [W3, AMat.get_ofFn, eq_comm]
-lemma R3_cbrt : IsCbrt R3 W3 := fun i j => by simp only [R3, W3, AMat.get_ofFn]; split_ifs <;> norm_num
+lemma R3_symm : Symm R3 := fun i j => by simp only [R3, AMat.get_ofFn, eq_comm]
+lemma H3_symm : Symm H3 := fun i j => by simp only [H3, AMat.get_ofFn, eq_comm, add_comm]
+lemma L3_bin : ∀ i j, L3.get i j ≤ 1 := fun i j => by simp only [L3, AMat.get_ofFn]; split_ifs <;> simp
+lemma L3_diag : ∀ i, L3.get i i = 0 := fun i => by fin_cases i <;> simp [L3]
 
 example : ccWu K3 K3 = ccBu K3 := wu_eq_bu_on01 K3_bin K3_symm K3_diag
 example : (rootMat K3).map (ccWu K3) = some (ccBu K3) := wu_eq_bu_on01_exec K3_bin K3_symm K3_diag
@@ -111,16 +201,25 @@ example : transWu K3 K3 = transBu K3 := trans_wu_eq_bu_on01 K3_bin K3_symm
 example : transWd C3 C3 = transBd C3 := trans_wd_eq_bd_on01 C3_bin
 example : strengthsDir C3 = degreesTot C3 := (strength_eq_degree_on01 C3_bin).2
 example : ccBd K3 = ccBu K3 := bd_eq_bu_symm K3_bin K3_symm K3_diag
-example : ccWd W3 R3 = ccWu W3 R3 := wd_eq_wu_symm W3_symm R3_cbrt
-example : (rootMat W3).map (ccWd W3) = (rootMat W3).map (ccWu W3) := wd_eq_wu_symm_exec W3_symm
+example : ccWd W3 R3 = ccWu W3 R3 := wd_eq_wu_symm W3_symm R3_symm
+example : ccWdR H3 0 = ccWuR H3 0 := wd_eq_wu_symm_real H3_symm 0
 example : transBd K3 = transBu K3 := trans_bd_eq_bu_symm K3_bin K3_symm
-example : transWd W3 R3 = transWu W3 R3 := trans_wd_eq_wu_symm W3_symm R3_cbrt
+example : transWd W3 R3 = transWu W3 R3 := trans_wd_eq_wu_symm W3_symm R3_symm
+example : transWdR H3 = transWuR H3 := trans_wd_eq_wu_symm_real H3_symm
 example : degreesOut W3 = degreesUnd W3 := (degrees_dir_eq_und_symm W3_symm).2.1
 example : degreesUnd (adj W3) = degreesUnd W3 := (degrees_ignore_weights W3).1
+example : ∃ D B, Dist.distBin C3 = some D ∧ Dist.dijkstra (Dist.lenMat .none C3) = some (D, B) :=
+  dist_wei_eq_bin_on01 C3 C3_bin
+example : Dist.efficiencyWei C3 = Dist.efficiencyBin C3 := eff_wei_eq_bin_on01 C3 C3_bin
+example : Between.brandes true L3 = Between.brandes false L3 := ebetw_wei_eq_bin_on01 L3 L3_bin
+example : (Between.brandes true L3).map Prod.snd = Between.betweennessBin L3 := betw_wei_eq_bin_on01 L3 L3_bin L3_diag
+example : Dist.distBin (adj W3) = Dist.distBin W3 := (weights_ignored_dist W3).1
+example : C15.coreOfBd (binI I3) 2 = C15.coreOfBd I3 2 := (weights_ignored_kcore I3 2).1
+example : (Core.kcoreBd (binI I3) 2).kn = (Core.kcoreBd I3 2).kn := weights_ignored_kcore_kn I3 2 (by norm_num)
 /-- the reductions are not empty statements: the common value on the triangle is 1 -/
 example : (ccWu K3 K3)[(0 : Fin 3)] = some 1 := by
   rw [wu_eq_bu_on01 K3_bin K3_symm K3_diag, ccBu_bin_symm K3_bin K3_symm]
-  simp +decide [deg, tri, K3, Fin.sum_univ_three, ind] <;> norm_num
+  simp +decide [deg, tri, K3, Fin.sum_univ_three, indK] <;> norm_num
 
 end Examples
 
